@@ -237,7 +237,10 @@ def config(sc, work, plug=PLUG):
     for k, v in (sc.get("tracker_opts") or {}).items():
         conf["tracker"][k] = v
     if sc.get("warm"):
-        conf["warm_start"] = dict(filename=sc["warm"]["file"], variables=["age", "farm", "release_time", "src"] + (["temp"] if sc["hasscal"] else []))
+        # a restart file written without particle variables can only restore the instance variables (the release file's columns
+        # stay declared as state variables: undeclared columns are an error)
+        pv = ["release_time", "src"] if sc["pvars"] else []
+        conf["warm_start"] = dict(filename=sc["warm"]["file"], variables=["age", "farm"] + pv + (["temp"] if sc["hasscal"] else []))
     return conf
 
 
